@@ -3,6 +3,7 @@ from analysis.runner import rule
 from analysis.facts import AnchorError, walk_operands
 from analysis import terms as T
 
+THOROUGH_CONFIGS = ['release', 'nobmi2', 'engine-alone']
 LEVEL = "other"
 DECIDED = ("R1 the override is stored in a thread_local LocalKey<Cell<LocalFlag>> (per-thread by type) and the global flag is one AtomicBool static; "
            "R2 is_enabled reads the local flag first: Global -> the atomic load of the global flag, Enabled -> true, Disabled -> false; "
